@@ -258,7 +258,7 @@ def cart_arr(v):
 # --------------------------------------------------------------------------------------------- (a) objects +- point / array
 @st.composite
 def obj_case(draw, tier="quick"):
-    kind = draw(st.sampled_from(["point", "pointcoll", "line2", "line3", "plane", "quadric", "circle", "segment", "polygon"]))
+    kind = draw(st.sampled_from(["point", "pointcoll", "line2", "line3", "plane", "quadric", "circle", "segment", "polygon", "dualquadric", "dualcircle"]))
     op = draw(st.sampled_from(["add", "sub", "rsub", "radd", "neg", "mul", "div"]))
     other = draw(st.sampled_from(["point", "ndarray", "int", "float"]))
     if op in ("mul", "div"):
@@ -291,6 +291,11 @@ def build_obj(kind, v):
     if kind == "quadric":
         m = np.array([[v[0], v[1], v[2]], [v[1], v[3], v[4]], [v[2], v[4], v[5]]])
         return Quadric(m), 2, None
+    if kind == "dualquadric":
+        m = np.array([[v[0], v[1], v[2]], [v[1], v[3], v[4]], [v[2], v[4], v[5]]])
+        return Quadric(m, is_dual=True), 2, None
+    if kind == "dualcircle":
+        return Circle(Point(v[0], v[1]), abs(v[2]) + 1).dual, 2, None
     if kind == "circle":
         r = abs(v[2]) + 1
         c = np.array([v[0], v[1]])
@@ -317,7 +322,8 @@ def run_obj(case):
         if kind in ("point", "pointcoll"):
             raise Skip("covered by point law")
         off = np.array(case["off"][:d], dtype=float)
-        x = Point(*off)
+        # the point is given by any representative (factor val)
+        x = Point(np.append(off, 1.0) * case["val"])
         res, f = call_op(site, op, o, x, case["ufunc"])
         if f:
             return [f]
@@ -347,6 +353,12 @@ def run_obj(case):
             exp[..., :-1] = exp[..., :-1] / exp[..., -1:] + sgn * off
             exp[..., -1] = 1
             ck.check(res.array.shape == exp.shape and C.peq_all(res.array, exp), site + ":translated-vertices", res.array.tolist())
+        elif kind in ("dualquadric", "dualcircle"):
+            # a dual quadric (its tangent lines) is moved by T D T^T
+            T = np.eye(3)
+            T[:2, 2] = sgn * off
+            exp = T @ arr @ T.T
+            ck.check(getattr(res, "is_dual", None) is True and C.peq_all(res.array, exp, 2), site + ":translated-dual-matrix", res.array.tolist())
         elif kind == "quadric":
             # x on Q  <=> x + off on Q + off : compare with matrix T^-T A T^-1
             T = np.eye(3)
